@@ -76,7 +76,7 @@ func (f *Frame) step(b *ssa.BasicBlock, ins ssa.Instruction, st *State) bool {
 			a := &Addr{Kind: aCell, Region: u.cellRegion(pt), Ref: ref, Sort: s}
 			f.store(st, a, te.zero(pt))
 			f.env[x] = Value{T: ref, Addr: a, Ty: x.Type()}
-			if !allocEscapes(x) {
+			if !allocEscapes(x) || allocImmutable(x) {
 				if f.localCells == nil {
 					f.localCells = map[string][]Term{}
 				}
